@@ -3,6 +3,7 @@ package main
 // Calls: builtins, sync/atomic models, contracts, inlining, externs, locks, protection classes.
 
 import (
+	"os"
 	"fmt"
 	"go/token"
 	"go/types"
@@ -253,6 +254,16 @@ func (e *Engine) acquire(st *State, class string, ref string, fx *FnExec) {
 	if len(e.w.spec.Mono[class]) > 0 {
 		before = st.clone()
 	}
+	private := false
+	if b, ok := e.refBirth[ref]; ok && b > 0 && len(e.escaped) == 0 {
+		// the lock of an object that this activation allocated and has not handed to anybody (a constructor taking
+		// its own lock): no other goroutine can have held it, so nothing it guards has changed, and nobody has
+		// established its invariants yet: neither havoc nor assumption; the release still has to establish them
+		private = true
+	}
+	if private {
+		keys = nil
+	}
 	for _, k := range keys {
 		e.heapHavoc(st, k)
 	}
@@ -263,10 +274,16 @@ func (e *Engine) acquire(st *State, class string, ref string, fx *FnExec) {
 	e.assumeTrackedWF(st)
 	// monotone facts survive the havoc: what this goroutine knew before still bounds the new state
 	for _, m := range e.w.spec.Mono[class] {
+		if private {
+			break
+		}
 		e.assume(st, e.evalClauseOn(m, st, before, ref, fx))
 	}
 	// assume the lock invariant
 	for _, li := range e.w.spec.LockInvs[class] {
+		if private {
+			break
+		}
 		g := e.evalClauseOn(li.Clause, st, nil, ref, fx)
 		if fl := e.envGuardFor(li.Clause.Tags); fl != "" {
 			g = "(=> " + fl + " " + g + ")"
@@ -395,12 +412,50 @@ func (fx *FnExec) checkAccess(st *State, loc *Loc, write bool, pos token.Pos) {
 	tags := e.autoTags("race", fx.fn)
 	if p == nil {
 		if e.w.scope[n.Obj().Pkg().Path()] && e.w.spec.RaceStrict[n.Obj().Pkg().Path()+"."+n.Obj().Name()] {
-			e.addObl("race", "undeclared:"+name, tags, st, sel(e.heapGet(st, e.keyMine()), loc.Ref), pos)
+			// a field without a protection declaration (a field added after the contracts were written): its lock is
+			// inferred. Candidates are the locks that guard the declared fields of the same struct; the field is
+			// accepted if one of them is held (exclusively for writes) at every access, or the object is still private
+			mineT := sel(e.heapGet(st, e.keyMine()), loc.Ref)
+			cands := map[string]bool{}
+			prefix := n.Obj().Pkg().Path() + "." + n.Obj().Name() + "."
+			for k, q := range e.w.spec.Protects {
+				if strings.HasPrefix(k, prefix) && q.Class == "guarded_by" && q.Lock != "" {
+					cands[q.Lock] = true
+				}
+			}
+			if len(cands) == 0 {
+				e.addObl("race", "undeclared:"+name, tags, st, mineT, pos)
+				return
+			}
+			var cl []string
+			for c := range cands {
+				cl = append(cl, c)
+			}
+			sort.Strings(cl)
+			for _, lockClass := range cl {
+				goal := "false"
+				hs := append(append([]heldLock{}, e.held(st)...), fx.declaredHeld(st)...)
+				for _, h := range hs {
+					if h.class == lockClass {
+						cur := sel(e.heapGet(st, h.key), h.ref)
+						if write {
+							goal = or(goal, eq(cur, "1"))
+						} else {
+							goal = or(goal, not(eq(cur, "0")))
+						}
+					}
+				}
+				short := lockClass[strings.LastIndex(lockClass, "/")+1:]
+				if o := e.addObl("race", "undeclared:"+name+":under:"+short, tags, st, or(goal, mineT), pos); o != nil {
+					o.Group = "infer:" + prefix + first
+					o.Alt = lockClass
+				}
+			}
 		}
 		return
 	}
 	fresh := false
-	if b, ok := e.refBirth[loc.Ref]; ok && b > 0 {
+	if b, ok := e.refBirth[loc.Ref]; ok && b > 0 && !e.escaped["type:"+n.Obj().Pkg().Path()+"."+n.Obj().Name()] {
 		fresh = true // object allocated by this activation: not yet shared
 	}
 	mine := sel(e.heapGet(st, e.keyMine()), loc.Ref) // the same, decided by the solver (aliases through the heap)
@@ -607,6 +662,14 @@ func (fx *FnExec) topFx() *FnExec {
 func (fx *FnExec) execGo(st *State, in *ssa.Go) {
 	// the spawned function runs concurrently: only its precondition is checked
 	c := in.Common()
+	var goArgs []*Val
+	if _, isClosure := c.Value.(*ssa.MakeClosure); isClosure {
+		goArgs = append(goArgs, fx.val(st, c.Value))
+	}
+	for _, a := range c.Args {
+		goArgs = append(goArgs, fx.val(st, a))
+	}
+	fx.publishClosureArgs(st, goArgs, in.Pos())
 	if f := c.StaticCallee(); f != nil {
 		if con := fx.e.w.contractFor(f); con != nil {
 			var args []*Val
@@ -693,6 +756,7 @@ func (fx *FnExec) execCallWith(st *State, in ssa.CallInstruction, c *ssa.CallCom
 		if len(fv.L) == 1 {
 			e.addObl("nopanic", "nilcall:"+e.exprText(fx.fn, pos), fx.tagsNoPanic(), st, not(eq(fv.L[0], "0")), pos)
 		}
+		fx.publishClosureArgs(st, args, pos)
 		if fv.Origin != "" {
 			if con := e.w.spec.Dyn[fv.Origin]; con != nil {
 				// $fn: the function value being called
@@ -726,6 +790,7 @@ func (fx *FnExec) execCallWith(st *State, in ssa.CallInstruction, c *ssa.CallCom
 		inScope = true
 	}
 	if con != nil && !con.Inline {
+		fx.publishClosureArgs(st, args, pos)
 		return fx.applyContract(st, callee, con, args, sig, rt, pos, key)
 	}
 	if inScope && len(callee.Blocks) > 0 {
@@ -740,8 +805,112 @@ func (fx *FnExec) execCallWith(st *State, in ssa.CallInstruction, c *ssa.CallCom
 		return fresh("r")
 	}
 	// external
+	fx.publishClosureArgs(st, args, pos)
 	e.usedDefault[key] = true
 	return fresh("r_" + callee.Name())
+}
+
+// publishClosureArgs: a closure handed to a function whose body is not executed here (a contract or an external
+// function: a timer, a goroutine starter, a callback registry) may be run by another goroutine from now on. Objects that
+// this activation allocated and that the closure captures stop being private at this point: they must satisfy the
+// invariants of their locks (unless the lock is held, in which case the next release establishes them), and from here on
+// their guarded fields need the lock like those of any shared object.
+func (fx *FnExec) publishClosureArgs(st *State, args []*Val, pos token.Pos) {
+	e := fx.e
+	dbg := os.Getenv("GOCV_DEBUG") != ""
+	for _, a := range args {
+		if dbg && a != nil {
+			fmt.Fprintf(os.Stderr, "publish? fn=%v binds=%d L=%v\n", a.Fn, len(a.Binds), a.L)
+		}
+		if a == nil || a.Fn == nil || len(a.Binds) == 0 {
+			continue
+		}
+		for i, b := range a.Binds {
+			if i >= len(a.Fn.FreeVars) || b == nil {
+				continue
+			}
+			fvT := a.Fn.FreeVars[i].Type()
+			pt, ok := fvT.Underlying().(*types.Pointer)
+			if !ok {
+				continue
+			}
+			vt, ok := pt.Elem().Underlying().(*types.Pointer)
+			if !ok {
+				continue
+			}
+			n, ok := vt.Elem().(*types.Named)
+			if !ok || n.Obj().Pkg() == nil {
+				continue
+			}
+			if _, isStruct := n.Underlying().(*types.Struct); !isStruct {
+				continue
+			}
+			loc := fx.ptrLocNoCheck(b, fvT)
+			if loc == nil {
+				continue
+			}
+			vals := e.loadLoc(st, loc)
+			if len(vals) != 1 {
+				continue
+			}
+			if dbg {
+				_, known := e.refBirth[vals[0]]
+				fmt.Fprintf(os.Stderr, "  capture %s ref=%s born-here=%v\n", a.Fn.FreeVars[i].Name(), vals[0], known)
+			}
+			fx.publishRef(st, vals[0], n, a.Fn.FreeVars[i].Name(), pos)
+		}
+	}
+}
+
+func (fx *FnExec) publishRef(st *State, ref string, n *types.Named, what string, pos token.Pos) {
+	e := fx.e
+	// whether the object is one this activation allocated is decided by the solver (`mine`): the value read from the
+	// captured variable is a term, not a syntactic reference
+	if e.escaped == nil {
+		e.escaped = map[string]bool{}
+	}
+	first := !e.escaped[ref]
+	e.escaped[ref] = true
+	e.escaped["type:"+n.Obj().Pkg().Path()+"."+n.Obj().Name()] = true
+	mineT := sel(e.heapGet(st, e.keyMine()), ref)
+	prefix := n.Obj().Pkg().Path() + "." + n.Obj().Name() + "."
+	var classes []string
+	for class := range e.w.spec.LockInvs {
+		if strings.HasPrefix(class, prefix) {
+			classes = append(classes, class)
+		}
+	}
+	sort.Strings(classes)
+	if first {
+		for _, class := range classes {
+			heldT := "false"
+			for _, h := range e.held(st) {
+				if h.class == class {
+					heldT = or(heldT, and(eq(h.ref, ref), not(eq(sel(e.heapGet(st, h.key), h.ref), "0"))))
+				}
+			}
+			for _, li := range e.w.spec.LockInvs[class] {
+				old := e.lockOld[class]
+				if old == nil {
+					old = st
+				}
+				g := e.evalClauseOn(li.Clause, st, old, ref, fx)
+				tags := append([]string{}, li.Clause.Tags...)
+				for _, t := range e.autoTags("race", fx.fn) {
+					dup := false
+					for _, u := range tags {
+						dup = dup || u == t
+					}
+					if !dup {
+						tags = append(tags, t)
+					}
+				}
+				e.addObl("contract", "publish:"+what+":"+li.Name, tags, st, or(not(mineT), heldT, g), pos)
+			}
+		}
+	}
+	mk := e.keyMine()
+	e.heapWrite(st, mk, store(e.heapGet(st, mk), ref, "false"), ref)
 }
 
 func ifaceMethodKey(t types.Type, m string) string {
@@ -829,6 +998,7 @@ func (fx *FnExec) calleeEnv(st *State, old *State, callee *ssa.Function, con *Fn
 				}
 			}
 		}
+		aliasRenamed(env.vars, callee)
 	}
 	return env
 }
@@ -916,6 +1086,7 @@ func (fx *FnExec) applyContract0(st *State, callee *ssa.Function, con *FnContrac
 					env.vars["this"] = sv
 				}
 			}
+			aliasRenamed(env.vars, callee)
 		}
 		// explicit names: receiver (if any) first
 		names := con.Params
@@ -1172,6 +1343,34 @@ func (e *Engine) modifiesKeys(m string, pkg string) []string {
 			}
 		}
 	}
+	// alias.T (every field of T) or alias.T.f, with alias an import of the contract's package
+	if parts := strings.Split(m, "."); len(parts) >= 2 {
+		if imp := e.w.spec.Imports[pkg]; imp != nil {
+			if path, ok := imp[parts[0]]; ok {
+				if tp := e.w.typesPkg(path); tp != nil {
+					if obj := tp.Scope().Lookup(parts[1]); obj != nil {
+						if len(parts) == 3 {
+							if lo, hi, _, _, ok := e.lookupField(obj.Type(), parts[2]); ok {
+								var out []string
+								for j := lo; j < hi; j++ {
+									out = append(out, e.keyField(obj.Type(), j))
+								}
+								return out
+							}
+						} else if len(parts) == 2 {
+							var out []string
+							for j := range e.fl.leaves(obj.Type()) {
+								out = append(out, e.keyField(obj.Type(), j))
+							}
+							if len(out) > 0 {
+								return out
+							}
+						}
+					}
+				}
+			}
+		}
+	}
 	e.specErrors = append(e.specErrors, "modifies: cannot resolve "+m)
 	return nil
 }
@@ -1301,6 +1500,7 @@ func (fx *FnExec) specEnvArgs(st *State) *SpecEnv {
 			}
 		}
 	}
+	aliasRenamed(env.vars, fx.fn)
 	return env
 }
 
@@ -1376,6 +1576,14 @@ func (fx *FnExec) execBuiltin(st *State, in ssa.CallInstruction, b *ssa.Builtin,
 			return e.freshVal(st, "app", c.Args[0].Type())
 		}
 		arr := e.newRef(st, "arr")
+		// ownership of the result: append may write in place when the source has spare capacity, so the result is
+		// private to this activation only if the source's backing array is (or the source is nil); the contents are
+		// modelled as a new array either way (in-place writes are not modelled as writes to the source: stated)
+		{
+			mk := e.keyMine()
+			m := e.heapGet(st, mk)
+			e.heapWrite(st, mk, store(m, arr, or(sel(m, a.L[0]), eq(a.L[0], "0"))), arr)
+		}
 		n1, n2 := a.L[2], b2.L[2]
 		nl := e.c.define("applen", SInt, "(+ "+n1+" "+n2+")")
 		for i, l := range e.fl.leaves(et) {
